@@ -450,6 +450,9 @@ class Interp:
             # every all-zero row has total 0: the mask never selects one (for signed data it may drop more — that is not this facet)
             out.tags["zero_row_mask_of"] = term
             out.tags["zero_row_mask_inverted"] = True
+        elif kind == "zero_rows":
+            out.tags["zero_row_mask_of"] = term          # selects every all-zero row (and, for signed data, possibly more)
+            out.tags["zero_row_mask_inverted"] = False
         if kind and sign in ("NONNEG", "POS"):
             out.tags["row_mask"] = (kind, term)
             out.tags["zero_row_mask_of"] = term
@@ -559,8 +562,12 @@ class Interp:
                         out.const = not pos
             self.qty_compare(e, l, r)
             self.elementwise_shape(e, out, l, r)
-            out.tags["cmp"] = (type(op).__name__, l, r)
-            self._rowsum_mask(out, op, l, r)
+            if l.known and not r.known:
+                out.tags["cmp"] = (type(op).__name__, r, l)          # 0 == x  ≡  x == 0
+                self._rowsum_mask(out, op, r, l)
+            else:
+                out.tags["cmp"] = (type(op).__name__, l, r)
+                self._rowsum_mask(out, op, l, r)
             return out
         if isinstance(op, (ast.Lt, ast.LtE, ast.Gt, ast.GtE)):
             from .extern import _conc
@@ -573,8 +580,14 @@ class Interp:
                              ast.Gt: l.const > r.const, ast.GtE: l.const >= r.const}[type(op)]
             self.qty_compare(e, l, r)
             self.elementwise_shape(e, out, l, r)
-            out.tags["cmp"] = (type(op).__name__, l, r)
-            self._rowsum_mask(out, op, l, r)
+            # canonical orientation: a literal on the left is moved to the right (0 >= x  ≡  x <= 0)
+            if l.known and not r.known:
+                flipped = {"Lt": ast.Gt, "Gt": ast.Lt, "LtE": ast.GtE, "GtE": ast.LtE}[type(op).__name__]()
+                out.tags["cmp"] = (type(flipped).__name__, r, l)
+                self._rowsum_mask(out, flipped, r, l)
+            else:
+                out.tags["cmp"] = (type(op).__name__, l, r)
+                self._rowsum_mask(out, op, l, r)
             return out
         if isinstance(op, (ast.In, ast.NotIn)):
             pos = isinstance(op, ast.In)
@@ -1351,7 +1364,7 @@ class Interp:
                           how="subscript-store")
                 return
             if base.tag("self_container") and isinstance(t.value, ast.Name):
-                self.emit("self_store", node, attr=base.tag("self_container"), val=v, how="item")     # through a local alias of the field
+                self.emit("self_store", node, attr=base.tag("self_container"), val=v, how="item", key=idx)     # through a local alias of the field
             if not aug:
                 self.emit("inplace", node, target=base, value=v, how="subscript", index=idx, tnode=t.value)
             # unit of a zero-initialised array is set by the first store
@@ -1409,7 +1422,7 @@ class Interp:
                 fr.env[t.value.id] = nb
             elif isinstance(t.value, ast.Attribute) and isinstance(t.value.value, ast.Name) and t.value.value.id == "self":
                 self.ctx.selfenv[t.value.attr] = nb
-                self.emit("self_store", node, attr=t.value.attr, val=nb, how="item")      # self.x[...] = v changes the field x
+                self.emit("self_store", node, attr=t.value.attr, val=nb, how="item", key=idx)      # self.x[...] = v changes the field x
             return
         self.ctx.note(f"unmodelled assignment target {type(t).__name__}")
 
@@ -1419,7 +1432,7 @@ class Interp:
             self.emit("global_mutation", node, name=base.tag("module_const"), how="item store")
         if base.tag("self_container") and not (base.tag("self_dict") or base.tag("self_dict_member")):
             # item store into a container that IS (or may be) a field of the estimator, possibly through a local alias
-            self.emit("self_store", node, attr=base.tag("self_container"), val=v, how="item")
+            self.emit("self_store", node, attr=base.tag("self_container"), val=v, how="item", key=idx)
         if base.tag("self_dict") or base.tag("self_dict_member"):
             self.emit("self_store", node, attr=(idx.const if (idx.known and isinstance(idx.const, str) and base.tag("self_dict")) else
                                                 base.tag("self_dict_member") or "__dict__[…]"), val=v)
